@@ -41,18 +41,7 @@ func TestVerifC20b(t *testing.T) {
 		depth int
 	}
 	plans := vx.Pick(r, []plan{{"base", 3}, {"ooo", 3}}, []plan{{"base", 4}, {"ooo", 4}, {"oooneg", 4}, {"ooo+overlap", 4}, {"snap", 4}, {"base", 5}, {"ooo", 5}})
-	for _, p := range plans {
-		if r.Expired() {
-			r.NotExhaustive("deadline before plan " + p.cfg)
-			break
-		}
-		c := cfgs[p.cfg]
-		c.Alphabet = "del"
-		name := fmt.Sprintf("%s@del", p.cfg)
-		res := r.BFS(name, func() vx.Sys { return dbxWithSoft(r, c, name) }, p.depth)
-		t.Logf("C20b %s depth %d: states=%d transitions=%d depthCompleted=%d", name, p.depth, res.States, res.Transitions, res.DepthCompleted)
-	}
-	// search from non-initial states (deep scripted pre-states with deletes on block boundaries)
+	// FIRST (targeted, must not be cut off by the deadline): search from non-initial states (deep scripted pre-states with deletes on block boundaries)
 	for _, cn := range vx.Pick(r, []string{"base"}, []string{"base", "ooo", "oooneg", "snap"}) {
 		if r.Expired() {
 			r.NotExhaustive("deadline before the non-initial-state search of " + cn)
@@ -63,5 +52,16 @@ func TestVerifC20b(t *testing.T) {
 		name := cn + "@del+starts"
 		res := r.BFSFrom(name, func() vx.Sys { return dbxWithSoft(r, c, name) }, dbxStarts(c.W), vx.Pick(r, 1, 2))
 		t.Logf("C20b %s: states=%d transitions=%d", name, res.States, res.Transitions)
+	}
+	for _, p := range plans {
+		if r.Expired() {
+			r.NotExhaustive("deadline before plan " + p.cfg)
+			break
+		}
+		c := cfgs[p.cfg]
+		c.Alphabet = "del"
+		name := fmt.Sprintf("%s@del", p.cfg)
+		res := r.BFS(name, func() vx.Sys { return dbxWithSoft(r, c, name) }, p.depth)
+		t.Logf("C20b %s depth %d: states=%d transitions=%d depthCompleted=%d", name, p.depth, res.States, res.Transitions, res.DepthCompleted)
 	}
 }
